@@ -406,6 +406,10 @@ func (this *AssetBind) Deserialization(source *common.ZeroCopySource) error {
 	if eof {
 		return fmt.Errorf("RegisterAssetParam deserialize length of asset map array error")
 	}
+	// every entry occupies at least two bytes (key and length prefix): never size the map beyond what the input can hold
+	if l > source.Len()/2 {
+		return fmt.Errorf("RegisterAssetParam deserialize: asset map length %d exceeds remaining data", l)
+	}
 	assetMap := make(map[uint64][]byte, l)
 	for i := uint64(0); i < l; i++ {
 		k, eof := source.NextVarUint()
@@ -423,7 +427,10 @@ func (this *AssetBind) Deserialization(source *common.ZeroCopySource) error {
 	if eof {
 		return fmt.Errorf("RegisterAssetParam deserialize length of lock proxy map array error")
 	}
-	lockProxyMap := make(map[uint64][]byte, l)
+	if m > source.Len()/2 {
+		return fmt.Errorf("RegisterAssetParam deserialize: lock proxy map length %d exceeds remaining data", m)
+	}
+	lockProxyMap := make(map[uint64][]byte, m)
 	for i := uint64(0); i < m; i++ {
 		k, eof := source.NextVarUint()
 		if eof {
